@@ -63,6 +63,12 @@ def _case(draw, flavor):
     if not has_push and draw(st.integers(0, 4)) == 0:
         bits = [o["name"] for o in spec["inputs"] if o["kind"] == "bit"]
         spec["ctx"]["step_cond"] = ["in", draw(st.sampled_from(bits))]
+    # spelling of the context (all documented to mean the same) / reset derived with or_reset / and_reset
+    kind = draw(st.sampled_from(["direct", "direct", "object", "with_params", "call_on_reset", "derive", "derive"]))
+    if kind == "derive":
+        spec["ctx"]["reset"]["derive"] = {"op": draw(st.sampled_from(["or", "or", "and"])), "active_low": draw(st.booleans())}
+    else:
+        spec["ctx"]["style"] = kind
     n = 36
     stim = draw(G.stimulus(spec, n))
     # reset schedule: runs of active reset
@@ -79,8 +85,30 @@ def _case(draw, flavor):
     resets = resets[:n]
     pulses = [1 if (rcfg["async"] and not resets[i] and draw(st.integers(0, 11)) == 0) else 0 for i in range(n)]
     lvl = (lambda a: (0 if a else 1)) if rcfg["active_low"] else (lambda a: (1 if a else 0))
-    return {"spec": spec, "stim": stim, "resets": [lvl(a) for a in resets], "pulses": pulses,
-            "prefix": draw(st.integers(2, 12))}
+    case = {"spec": spec, "stim": stim, "pulses": pulses, "prefix": draw(st.integers(2, 12))}
+    dv = spec["ctx"]["reset"].get("derive")
+    if dv:
+        # `resets` so far is the schedule of the *effective* reset; split it over the parent reset and the condition
+        par, cond = [], []
+        for a in resets:
+            c = draw(st.integers(0, 2))
+            if dv["op"] == "or":
+                p_, c_ = ((1, 0), (0, 1), (1, 1))[c] if a else (0, 0)
+            else:
+                p_, c_ = (1, 1) if a else ((0, 0), (1, 0), (0, 1))[c]
+            par.append(p_)
+            cond.append(c_)
+        if rcfg["async"]:
+            # the combined reset is an undefaulted Bit signal: it is 'U' for the first delta cycles of a simulation, which an
+            # asynchronous active-low test reads as active.  What happens at power-up is therefore not determined by the
+            # property; every schedule of such a design starts with one clock of effective reset
+            par[0] = cond[0] = 1
+            pulses[0] = 0
+        case["resets"] = [lvl(a) for a in par]
+        case["rx"] = [((0 if a else 1) if dv["active_low"] else (1 if a else 0)) for a in cond]
+    else:
+        case["resets"] = [lvl(a) for a in resets]
+    return case
 
 
 def strategy(shard):
@@ -92,8 +120,37 @@ def _level(spec, active):
     return (0 if active else 1) if low else (1 if active else 0)
 
 
-def _is_active(spec, level):
-    return bool(level) != bool(spec["ctx"]["reset"].get("active_low"))
+def _is_active(spec, level, rx=None):
+    """is the context's (effective) reset active for these port levels"""
+    r = spec["ctx"]["reset"]
+    par = bool(level) != bool(r.get("active_low"))
+    dv = r.get("derive")
+    if not dv or rx is None:
+        return par
+    cond = bool(rx) != bool(dv.get("active_low"))
+    return (par or cond) if dv["op"] == "or" else (par and cond)
+
+
+def _apply(sim, spec, row, rst, rx):
+    """one clock.  With a derived reset the two reset inputs are changed one after the other, in the order in which the
+    combined reset cannot glitch (a simultaneous change of both inputs of the and/or is a hazard of the design the user
+    wrote, not something the property speaks about); then the data inputs change and the clock ticks"""
+    dv = spec["ctx"]["reset"].get("derive")
+    if dv and rx is not None:
+        p_act = _is_active(spec, rst)
+        c_act = bool(rx) != bool(dv.get("active_low"))
+        first_active = dv["op"] == "or"
+        order = sorted([("rst", rst, p_act), ("rx", rx, c_act)], key=lambda t: t[2] != first_active)
+        for name, level, _ in order:
+            sim.poke(**{name: level})
+    S.apply_step(sim, spec, row, rst, rx)
+
+
+def _rx_level(spec, active):
+    dv = spec["ctx"]["reset"].get("derive")
+    if not dv:
+        return None
+    return (0 if active else 1) if dv.get("active_low") else (1 if active else 0)
 
 
 def _diff_from_default(m):
@@ -112,22 +169,25 @@ def _run(cd, case, out):
     sim = cd.sim(stim[0])
     m = Machine(spec)
     nontriv = False
+    rxs = case.get("rx") or [None] * len(stim)
     for k, row in enumerate(stim):
-        active = _is_active(spec, resets[k])
+        active = _is_active(spec, resets[k], rxs[k])
         if active and _diff_from_default(m):
             nontriv = True
         try:
             exp = m.step(row, reset=active)
         except Unspecified as u:
             return "unspecified", {"step": k, "why": str(u)}, nontriv, m
-        S.apply_step(sim, spec, row, resets[k])
+        _apply(sim, spec, row, resets[k], rxs[k])
         bad = S.compare(sim, exp, spec)
         if bad:
             return "mismatch", {"step": k, "bad": bad, "phase": "reset_active" if active else "run"}, nontriv, m
         if pulses[k]:
-            if _diff_from_default(m):
-                nontriv = True
-            m.step(row, reset=True)
+            # the parent reset pulses between two clock edges; whether the context is reset depends on the condition too
+            if _is_active(spec, _level(spec, True), rxs[k]):
+                if _diff_from_default(m):
+                    nontriv = True
+                m.step(row, reset=True)
             exp = dict(m.sig)
             sim.poke(rst=_level(spec, True))
             sim.poke(rst=_level(spec, False))
@@ -158,15 +218,16 @@ def _metamorphic(cd, case):
     p = min(case.get("prefix", 6), len(stim) - 4)
     prefix, tail = stim[:p], stim[p:]
     inactive, active = _level(spec, False), _level(spec, True)
+    xi, xa = _rx_level(spec, False), _rx_level(spec, True)
     a = cd.sim(tail[0])
     b = cd.sim(prefix[0])
     for row in prefix:
-        S.apply_step(b, spec, row, inactive)
-    S.apply_step(a, spec, tail[0], active)   # both take one reset clock with the same inputs
-    S.apply_step(b, spec, tail[0], active)
+        _apply(b, spec, row, inactive, xi)
+    _apply(a, spec, tail[0], active, xa)   # both take one reset clock with the same inputs
+    _apply(b, spec, tail[0], active, xa)
     for k, row in enumerate(tail[1:]):
-        S.apply_step(a, spec, row, inactive)
-        S.apply_step(b, spec, row, inactive)
+        _apply(a, spec, row, inactive, xi)
+        _apply(b, spec, row, inactive, xi)
         for port, _ in S.observables(spec):
             if a.get_str(port) != b.get_str(port):
                 return {"step": k, "port": port, "powerup": a.get_str(port), "after_reset": b.get_str(port)}
@@ -179,7 +240,9 @@ def check(case):
     flavor = spec["ctx"]["type"]
     r = spec["ctx"]["reset"]
     rk = ("async" if r.get("async") else "sync") + ("_low" if r.get("active_low") else "_high")
-    out.labels += ["flavor:" + flavor, "reset:" + rk]
+    dv = r.get("derive")
+    ck = (dv["op"] + "_reset" + ("_low" if dv.get("active_low") else "_high")) if dv else spec["ctx"].get("style", "direct")
+    out.labels += ["flavor:" + flavor, "reset:" + rk, "ctx:" + ck]
     try:
         cd = S.Compiled(spec)
     except S.Rejected as e:
@@ -241,7 +304,7 @@ def check(case):
         info = evaluate(S.Compiled(small), dict(case, spec=small))[1] if small is not spec else info
     except Exception:  # noqa: BLE001
         pass
-    sig = {"property": PROPERTY, "flavor": flavor, "reset": rk, "divergence": status, "features": ",".join(S.features(small)),
+    sig = {"property": PROPERTY, "flavor": flavor, "reset": rk, "ctx": ck, "divergence": status, "features": ",".join(S.features(small)),
            "on_reset": bool(small["ctx"]["reset"].get("on_reset")), "step_cond": small["ctx"].get("step_cond") is not None}
     out.status = "mismatch"
     out.add(sig, f"{info}\n--- minimised source ---\n{G.render(small)}")
